@@ -36,6 +36,22 @@ CLAIMS["C06"] = dict(
     technique="TLA+ state machine of the block graph, TLC exhaustive exploration, every transition replayed on the implementation; TLC trace validation of recorded steps",
     design="DESIGN.md §3.1, §4 C06")
 
+CLAIMS["C04"] = dict(
+    category="model_checking",
+    text=("The property is stated in NifGraph.tla as step relations over (pre, witness, post): SortViol (permutation, references "
+          "stable, node child sets kept and no child listed more often, masked content ids unchanged, parentless root first, "
+          "unknown blocks => untouched), IdempotentViol, OptimizeViol/SaveDefaultViol (only blocks unreferenced by survivors vanish, "
+          "everything reachable from the root stays) and FileViol (the written file is the post state). TLC enumerates every graph "
+          "of <= 3 blocks over the kinds the sorter distinguishes and marks the well-typed acyclic ones; the harness builds each from "
+          "real classes in an OB/FO3-family and a later version and runs PrettySortBlocks twice, SetShapeOrder with every name list "
+          "over {A,B,Z} (duplicates, missing names), Optimize and the default Save twice; every step is trace-validated by TLC. The "
+          "same operations are validated on the 26 sample files."),
+    note=("Trusted: TLC, projection (uids H1, reference/string offsets H2/H3 for masked content ids), independent header parser. "
+          "No transcription of the sorter yet (no design-level search beyond the enumerated graphs). Ill-typed/cyclic/dangling "
+          "graphs are C15's. Bounds are recomputed before the pre snapshot."),
+    technique="TLA+ step relations evaluated by TLC on recorded implementation steps (trace validation) over TLC-enumerated graphs and sample files",
+    design="DESIGN.md §3.1, §4 C04")
+
 NOT_YET = {}
 
 
